@@ -46,6 +46,10 @@ M = Tuple[str, str, str, str, str]
 
 MUTANTS: Dict[str, List[M]] = {
     "C01": [
+        ("yaml dumper writes unicode line breaks raw again", "_loaders_dumpers.py", "    DefaultDumper.add_representer(str, str_representer)\n", "", "C01.a"),
+        ("yaml dumper forgets the paragraph separator", "_loaders_dumpers.py", 'for ch in "\\x85\\u2028\\u2029")', 'for ch in "\\x85\\u2028")', "C01.a"),
+        ("json dumpers leave C1 controls raw", "_loaders_dumpers.py", 're.compile("[\\x7f-\\x9f\\u2028\\u2029\\ufffe\\uffff]")', 're.compile("[\\x7f\\u2028\\u2029\\ufffe\\uffff]")', "C01.a"),
+        ("json compact dump not escaped", "_loaders_dumpers.py", 'return escape_json_chars_not_readable_as_yaml(json.dumps(data, separators=(",", ":"), **dump_json_kwargs))', 'return json.dumps(data, separators=(",", ":"), **dump_json_kwargs)', "C01.a"),
         ("skip_default reduces every dict value entry by entry", "_core.py", "                    if action is None or isinstance(action, (_ActionSubCommands, _ActionConfigLoad)):\n                        self._dump_delete_default_entries(val, default, prefix + key + \".\")", "                    self._dump_delete_default_entries(val, default, prefix + key + \".\")", "C01.g"),
         ("skip_default reduces init_args with the outer parser", "_core.py", "                        parser._dump_delete_default_entries(init_args, default[\"init_args\"])", "                        self._dump_delete_default_entries(init_args, default[\"init_args\"])", "C01.g"),
         ("skip_default dereferences a None default", "_core.py", "                    if not isinstance(default, dict) or val[\"class_path\"] != default.get(\"class_path\"):", "                    if val[\"class_path\"] != default.get(\"class_path\"):", "C01.g"),
